@@ -226,9 +226,36 @@ def emit() -> str:
     # ---- _timeout_session tolerates a missing terminal connection
     tos = find_method(usm, "_timeout_session")
     pops = [ast.unparse(n) for n in ast.walk(tos) if isinstance(n, ast.Call) and ast.unparse(n.func).endswith("_connections.pop")]
-    if len(pops) != 1:
-        raise ValueError("_timeout_session: expected exactly one terminal._connections.pop")
-    timeout_tolerant = pops[0] == "self.parent.terminal._connections.pop(session.uuid, None)"
+    # (no raise when the shape changed: the obligations below fail and the rig still searches for a failing input)
+    timeout_tolerant = pops == ["self.parent.terminal._connections.pop(session.uuid, None)"]
+
+    def _flat(stmts):
+        out = []
+        for x in stmts:
+            if isinstance(x, ast.Expr) and ast.unparse(x).startswith("self.sys_log"):
+                continue
+            if isinstance(x, ast.If):
+                out.append("if " + ast.unparse(x.test) + ":")
+                out += ["  " + y for y in _flat(x.body)]
+                if x.orelse:
+                    out.append("else:")
+                    out += ["  " + y for y in _flat(x.orelse)]
+            elif isinstance(x, ast.For):
+                out.append("for " + ast.unparse(x.target) + " in " + ast.unparse(x.iter) + ":")
+                out += ["  " + y for y in _flat(x.body)]
+            else:
+                out.append(ast.unparse(x))
+        return out
+    timeout_body = _flat(_body(tos))
+    timeout_calls = sorted({ast.unparse(n.func) for n in ast.walk(tos) if isinstance(n, ast.Call)})
+    pre_body = _flat(_body(pre))
+    node_pre = _flat(_body(find_method(class_def(base, "Node"), "pre_timestep")))
+    logout_calls = []
+    for fn in usm.body:
+        if isinstance(fn, ast.FunctionDef):
+            for n in ast.walk(fn):
+                if isinstance(n, ast.Call) and ast.unparse(n.func) in ("self._logout", "self.local_logout", "self.remote_logout"):
+                    logout_calls.append(f"{fn.name}: {ast.unparse(n)}")
 
     # ---- authenticate_user
     auth = find_method(um, "authenticate_user")
@@ -495,6 +522,16 @@ def svcStates : List (String × Nat) := {states_lean}
 def localTimeoutCmp : String := "{lcmp}"
 def remoteTimeoutCmp : String := "{rcmp}"
 def preTimestepSetsCurrent : Bool := {_b(sets_now)}
+/-- `UserSessionManager._timeout_session`, statement by statement (log lines dropped): the time-out edits the session tables itself —
+no `_logout`, no `_can_perform_action` -/
+def timeoutSessionBody : List String := {_lean_list(timeout_body)}
+def timeoutSessionCalls : List String := {_lean_list(timeout_calls)}
+/-- `UserSessionManager.pre_timestep`, statement by statement -/
+def preTimestepBody : List String := {_lean_list(pre_body)}
+/-- `Node.pre_timestep`: every service gets its `pre_timestep`, whatever the node's or the service's state -/
+def nodePreTimestep : List String := {_lean_list(node_pre)}
+/-- every call of `_logout` / `local_logout` / `remote_logout` inside UserSessionManager: `method: call` -/
+def logoutCalls : List String := {_lean_list(logout_calls)}
 /-- every time-out decision of `pre_timestep`, in source order: (test, body) -/
 def preTimestepTimeoutTests : List (String × String) := {_lean_pairs(timeout_tests)}
 /-- the `if` tests of `_timeout_session` (which kind of session is being ended) -/
